@@ -127,6 +127,12 @@ func (c *fctx) aliasSource(e ast.Expr, en *env) (string, bool) {
 		}
 	case *ast.SliceExpr:
 		return c.aliasSource(x.X, en)
+	case *ast.IndexExpr: // [ext:T08] an element of a [][]byte shares with the table
+		if tv, ok := c.t.info.Types[x.X]; ok && tv.Type != nil {
+			if g, ok := c.t.type08(tv.Type, x); ok && g.nest {
+				return c.aliasSource(x.X, en)
+			}
+		}
 	case *ast.CallExpr:
 		if id, ok := ast.Unparen(x.Fun).(*ast.Ident); ok {
 			if b, ok := c.t.info.Uses[id].(*types.Builtin); ok {
@@ -345,14 +351,14 @@ func (c *fctx) expr(e ast.Expr, en *env, k func(string) string) string {
 		return c.expr(x.X, en, func(a string) string {
 			return c.expr(x.Index, en, func(i string) string {
 				v := c.fresh("v")
-				return fmt.Sprintf("do %s <- m_get %s %s;;\n%s", v, a, i, k(v))
+				return fmt.Sprintf("do %s <- %s %s %s;;\n%s", v, getFn08(t.exprType(x.X)), a, i, k(v)) // [ext:T08] m_getA on [][]byte
 			})
 		})
 	case *ast.SliceExpr:
 		if x.Slice3 {
 			t.fail(x, "3-index slice expression")
 		}
-		if g := t.exprType(x.X); g.k != kSlice || g.elem != nil {
+		if g := t.exprType(x.X); g.k != kSlice || g.elem != nil || g.nest { // [ext:T08] nest
 			t.fail(x, "slice expression on a non-slice (or on a slice of structs)")
 		}
 		return c.expr(x.X, en, func(a string) string {
@@ -375,6 +381,8 @@ func (c *fctx) expr(e ast.Expr, en *env, k func(string) string) string {
 				})
 			})
 		})
+	case *ast.CompositeLit: // [ext:T08] []byte{a, b}
+		return c.complit08(x, en, k)
 	case *ast.CallExpr:
 		return c.call(x, en, func(vs []string) string {
 			if len(vs) != 1 {
@@ -562,6 +570,7 @@ func (c *fctx) call(x *ast.CallExpr, en *env, k func([]string) string) string {
 			return k([]string{a})
 		})
 	}
+	c.refuseNested08(x, c.builtin(x)) // [ext:T08] append / copy / make on [][]byte
 	switch b := c.builtin(x); b {
 	case "len", "cap":
 		if t.exprType(x.Args[0]).k != kSlice {
@@ -627,6 +636,9 @@ func (c *fctx) call(x *ast.CallExpr, en *env, k func([]string) string) string {
 	if s, ok := c.seqCall(x, en, k); ok { // [seq] sync/atomic, runtime.Gosched
 		return s
 	}
+	if s, ok := c.foreignCall08(x, en, k); ok { // [ext:T08] TransSpec.Foreign, errors.New / fmt.Errorf
+		return s
+	}
 	fn, recv := t.calleeOf(x)
 	if fn == nil {
 		t.fail(x, "call of %s (only functions and methods of the translated package, builtins and conversions)", nodeDesc(ast.Unparen(x.Fun)))
@@ -664,7 +676,7 @@ func (c *fctx) call(x *ast.CallExpr, en *env, k func([]string) string) string {
 		}
 	}
 	emit := func(rterm string, vs []string) string {
-		app := fi.name + fuel
+		app := fi.name + fuel + c.callee08(fi, x) // [ext:T08] ext'
 		if rv != nil {
 			app += " " + rv.name
 		}
